@@ -23,7 +23,7 @@ type gInfo struct {
 }
 
 type dumpInfo struct {
-	Waiters []gInfo // in SendEvent, blocked in sync.(*Mutex).Lock
+	Waiters []gInfo // in SendEvent / EventBroadcast, blocked in sync.(*Mutex).Lock of a client
 	Holders []gInfo // in SendEvent, not blocked at the Lock (writing, or paused at the hook)
 	InWrite []gInfo // subset of Holders that is inside WriteMessage
 	Raw     string
@@ -49,26 +49,34 @@ func analyseDump(ts *server.Teamserver) dumpInfo {
 	var d dumpInfo
 	d.Raw = raw
 	mine := fmt.Sprintf("Havoc/cmd/server.(*Teamserver).SendEvent(%p", ts)
+	mineB := fmt.Sprintf("Havoc/cmd/server.(*Teamserver).EventBroadcast(%p", ts)
 	for _, blk := range strings.Split(raw, "\n\n") {
 		m := reGHead.FindStringSubmatch(blk)
 		if m == nil {
 			continue
 		}
-		if !strings.Contains(blk, mine) {
+		inSend := strings.Contains(blk, mine)
+		if !inSend && !strings.Contains(blk, mineB) {
 			continue
 		}
 		g := gInfo{ID: m[1], State: m[2], Text: blk}
 		lines := strings.Split(blk, "\n")
-		// innermost frames first: is the frame right above SendEvent the mutex?
+		// innermost frame of the code under test: is it one of the two places that lock a
+		// client's write mutex (SendEvent; EventBroadcast's look at Authenticated), with the
+		// mutex right above it? (A goroutine that holds one client's mutex further down its
+		// stack and waits for another's here is a waiter: it cannot release anything.)
 		atLock := false
 		for i, ln := range lines {
-			if strings.HasPrefix(ln, "Havoc/cmd/server.(*Teamserver).SendEvent(") {
-				// previous function line is lines[i-2] (function, location pairs)
-				if i >= 2 && strings.HasPrefix(lines[i-2], "sync.(*Mutex).Lock(") {
+			if strings.HasPrefix(ln, "Havoc/") {
+				if (strings.HasPrefix(ln, "Havoc/cmd/server.(*Teamserver).SendEvent(") || strings.HasPrefix(ln, "Havoc/cmd/server.(*Teamserver).EventBroadcast.func1(")) &&
+					i >= 2 && strings.HasPrefix(lines[i-2], "sync.(*Mutex).Lock(") {
 					atLock = true
 				}
 				break
 			}
+		}
+		if !atLock && !inSend {
+			continue // broadcasting, but neither waiting for nor holding a client mutex
 		}
 		if atLock {
 			d.Waiters = append(d.Waiters, g)
